@@ -75,7 +75,6 @@ Definition as_spec (s : sx) : option screen_spec :=
   | _ => None
   end.
 
-Inductive saction := SACmds (l : list scmd) | SARun.
 Definition as_saction (s : sx) : option saction :=
   match s with
   | L (I 0%Z :: r) => option_map SACmds (all_some (map (as_scmd 30) r))
@@ -85,27 +84,6 @@ Definition as_saction (s : sx) : option saction :=
 
 Definition of_outcome (o : outcome) : sx :=
   match o with ONormal => I 0%Z | OThrow e => of_exn e | OBlocked => I 4%Z | OFuel => I 5%Z end.
-
-(* the application's session: App.initialize(), then the actions; App.run() refuses an empty stack *)
-Fixpoint app_session (specs : nat -> screen_spec) (fuel : nat) (acts : list saction) (s : lstate sstate)
-  : list outcome * lstate sstate :=
-  match acts with
-  | [] => ([], s)
-  | a :: r =>
-    let '(o, s1) :=
-      match a with
-      | SACmds l => exec (screen_code specs) fuel (CProg (run_cmds specs 0 0 l)) (emit ETop s)
-      | SARun =>
-        match st_stack (ust s), st_run_empty (ust s) with
-        | [], false => (OThrow XError, emit ETop s)                 (* NothingScheduledError *)
-        | _, _ => exec (screen_code specs) fuel CRun (emit ETop s)
-        end
-      end in
-    match o with
-    | OBlocked | OFuel | OThrow XSysExit => ([o], s1)
-    | _ => let '(os, s2) := app_session specs fuel r s1 in (o :: os, s2)
-    end
-  end.
 
 Definition run (s : sx) : sx :=
   match s with
@@ -117,9 +95,7 @@ Definition run (s : sx) : sx :=
     do run_empty <- as_bool re;
     do actions <- as_list as_saction acts;
     let specs := fun n => nth n specl default_spec in
-    let s0 := init_state (sstate0 specl typed quit run_empty) in
-    let '(_, s1) := exec (screen_code specs) 20 (CProg (app_initialize)) s0 in
-    let '(os, st) := app_session specs fuel actions s1 in
+    let '(os, st) := app_run_all specs specl typed quit run_empty fuel actions in
     L [ of_list of_outcome os;
         of_list of_event (rev (trace st));
         of_list of_nat (map sd_id (st_stack (ust st)));
